@@ -324,7 +324,9 @@ def check(prop, tier, only=None, keep=False, jobs=None, calibrate=False):
     # per-cbmc resident-set cap: jobs * cap stays below the 62 GB of the sandbox
     mem = float(os.environ.get("VERIF_MEM_GB", 0) or max(3.0, 52.0 / jobs))
 
-    builds = cfg.get("builds", [""])  # pilota feature sets
+    builds = cfg.get("builds", [("", None)])  # (pilota feature, harness filters or None = the tier's set)
+    if only or calibrate:
+        builds = [("", None)]
     all_res, inconclusive, violations, knowns, samples = {}, [], [], [], []
     known_only = set()  # harnesses whose only failed checks are listed known findings
     replays_done = 0
@@ -335,7 +337,7 @@ def check(prop, tier, only=None, keep=False, jobs=None, calibrate=False):
     open(logf, "w").close()
     roots = []
     try:
-        for feat in builds:
+        for feat, feat_filters in builds:
             root, hk = make_scratch(prop, tier + ("-" + feat if feat else ""), feat)
             roots.append(root)
             # module list: only what this property needs is compiled
@@ -348,14 +350,27 @@ def check(prop, tier, only=None, keep=False, jobs=None, calibrate=False):
                     continue
             tgt = seed_target(root)
             export = os.path.join(root, "out.json")
-            flt = filters if not feat else [f.replace("_q_", "_q%s_" % meta.FEATURE_TAG[feat]).replace("_t_", "_t%s_" % meta.FEATURE_TAG[feat]) for f in filters]
-            cmd = kani_cmd(flt, tgt, jobs, h_timeout, export)
+            flt = list(feat_filters) if feat_filters else filters
+            extra = ["--features", "feat_on"] if feat else None
+            cmd = kani_cmd(flt, tgt, jobs, h_timeout, export, extra=extra)
             if cfg.get("hooks"):
                 # verification hooks in /repo are compiled in only for these checks
                 EXTRA_ENV["RUSTFLAGS"] = "--cfg pilota_verif"
             kenv = env_base()
             total_to = cfg.get("total_timeout_" + tier, 3000 if tier == "quick" else 6 * 3600)
             rc, timed_out = run(cmd, hk, logf, total_to, mem_gb=mem, env=kenv)
+            if not os.path.isfile(export):
+                # allowlist entries whose harness was renamed or removed since calibration: drop
+                # them (they are then simply not part of this run) and retry once
+                txt0 = open(logf, errors="replace").read()
+                m0 = re.search(r"Failed to match the following harness\(es\):\n((?:\S+\n)+)", txt0)
+                if m0:
+                    stale = set(m0.group(1).split())
+                    flt2 = [f for f in flt if f not in stale]
+                    if flt2 and len(flt2) < len(flt):
+                        log("note: %d stale thorough allowlist entries ignored: %s" % (len(flt) - len(flt2), ", ".join(sorted(stale))[:300]))
+                        cmd = kani_cmd(flt2, tgt, jobs, h_timeout, export, extra=extra)
+                        rc, timed_out = run(cmd, hk, logf, total_to, mem_gb=mem, env=kenv)
             if not os.path.isfile(export):
                 txt = open(logf, errors="replace").read()
                 if re.search(r"error(\[E\d+\])?:", txt) and "could not compile" in txt:
@@ -369,7 +384,8 @@ def check(prop, tier, only=None, keep=False, jobs=None, calibrate=False):
                 continue
             d, res = parse_export(export)
             export_meta = dict(tools=d.get("tools"), metadata=d.get("metadata"))
-            for hid, r in sorted(res.items()):
+            for hid0, r in sorted(res.items()):
+                hid = hid0 + ("@" + feat if feat else "")
                 all_res[hid] = r
                 fails = r["failed"]
                 kinds = [classify_check(c) for c in fails]
@@ -400,7 +416,7 @@ def check(prop, tier, only=None, keep=False, jobs=None, calibrate=False):
                 if r["covers_unsat"] and not has_known and not unknown:
                     inconclusive.append(dict(harness=hid, why="vacuity: cover property not satisfiable: %s" % r["covers_unsat"][0].get("description")))
                 if unknown:
-                    rep, rpath, note = replay(prop, hid, hk, tgt, logf)
+                    rep, rpath, note = replay(prop, hid0, hk, tgt, logf)
                     replays_done += 1
                     desc = "; ".join(sorted(set("%s @ %s:%s" % (c.get("description"), os.path.basename((c.get("location") or {}).get("file", "?")), (c.get("location") or {}).get("line", "?")) for c in unknown)))[:600]
                     if rep:
@@ -463,7 +479,7 @@ def write_evidence(prop, tier, seed, cfg, all_res, inconclusive, violations, kno
         tot_steps += int(st.get("size_program_expression") or 0)
         solver_s += float(st.get("runtime_decision_procedure_s") or 0)
         symex_s += float(st.get("runtime_symex_s") or 0)
-        m = meta.describe(hid)
+        m = meta.describe(hid.split("@")[0])
         harnesses.append(dict(
             harness=hid, verdict=r["status"], wall_s=round((r["duration_ms"] or 0) / 1000.0, 1),
             checks=r["nchecks"], failed_checks=[c.get("description") for c in r["failed"]][:8],
